@@ -230,7 +230,8 @@ Proof.
   - induction sch as [|c sch IH]; [reflexivity|]. cbn [forallb] in H. apply andb_true_iff in H as [Hc Hs].
     cbn [map]. rewrite (IH Hs). unfold lower_ascii, is_lower_alpha in *.
     destruct ((65 <=? c) && (c <=? 90)) eqn:E; [lia|reflexivity].
-  - revert H. apply forallb_impl. intros x. unfold is_lower_alpha, is_alpha_ci, is_alpha. lia.
+  - revert H. apply forallb_impl. intros x Hx. unfold is_alpha_ci.
+    assert (is_alpha x = true) as -> by (unfold is_lower_alpha, is_alpha in *; lia). reflexivity.
   - revert H. apply forallb_impl. intros x. unfold is_lower_alpha, printable. lia.
 Qed.
 
